@@ -31,6 +31,12 @@ type vfRRScript struct {
 		T    int64    `json:"t"`
 		Ntp  []uint64 `json:"ntp"`
 		Rate uint32   `json:"rate"`
+		// Lost0 (stream level, bind): the cumulative-lost counter of the fresh stream is set to this base, so that the
+		// saturation at 2^24-1 is within reach of a short history (the specification starts from the same base).
+		Lost0 uint32 `json:"lost0"`
+		// Cmp (icpt level, sr): shape of the compound packet that carries the sender report: 0 alone, 1 after the sender
+		// report of an SSRC that is not bound, 2 between other packet types and followed by a foreign sender report.
+		Cmp int `json:"cmp"`
 	} `json:"steps"`
 }
 
@@ -106,7 +112,8 @@ func vfRunRRStream(t *testing.T, sc *vfRRScript, out *vfWriter) {
 		switch st.A {
 		case "bind":
 			streams[st.S] = newReceiverStream(st.S, st.Rate)
-			out.Emit(vfM{"a": "bind", "s": st.S, "rate": st.Rate})
+			streams[st.S].totalLost = st.Lost0
+			out.Emit(vfM{"a": "bind", "s": st.S, "rate": st.Rate, "lost0": st.Lost0})
 		case "unbind":
 			delete(streams, st.S)
 			out.Emit(vfM{"a": "unbind", "s": st.S})
@@ -246,7 +253,18 @@ func vfRunRRIcpt(t *testing.T, sc *vfRRScript, out *vfWriter) {
 			out.Emit(vfM{"a": "rtp", "s": st.S, "w": st.W, "ts": st.Ts, "t": st.T})
 		case "sr":
 			sr := &rtcp.SenderReport{SSRC: st.S, NTPTime: vfRRNtp(st.Ntp), RTPTime: 1, PacketCount: 2, OctetCount: 3}
-			raw, err := sr.Marshal()
+			compound := []rtcp.Packet{sr}
+			foreign := &rtcp.SenderReport{SSRC: 0x7EADBEEF, NTPTime: 0x1111222233334444, RTPTime: 5, PacketCount: 6, OctetCount: 7}
+			switch st.Cmp {
+			case 1:
+				compound = []rtcp.Packet{foreign, sr}
+			case 2:
+				compound = []rtcp.Packet{
+					&rtcp.ReceiverReport{SSRC: 0x7EADBEEF, Reports: []rtcp.ReceptionReport{{SSRC: st.S, LastSenderReport: 0x01020304}}},
+					&rtcp.PictureLossIndication{SenderSSRC: 0x7EADBEEF, MediaSSRC: st.S}, sr, foreign,
+				}
+			}
+			raw, err := rtcp.Marshal(compound)
 			if err != nil {
 				t.Fatalf("VERIF-INFRA marshal sr: %v", err)
 			}
